@@ -23,6 +23,11 @@ func (TraceMon) AfterBlock(w *World, b *BlockCtx) {
 	if b.Cur == nil {
 		return
 	}
+	if os.Getenv("SIM_TRACE") == "2" && b.Prev != nil {
+		for _, d := range DiffFlat(Flatten(&b.Prev.Raw), Flatten(&b.Cur.Raw)) {
+			fmt.Fprintf(os.Stderr, "TRACE h=%d diff %s: %s -> %s (%s)\n", b.Height, d.Path, d.Old, d.New, d.Num())
+		}
+	}
 	for _, p := range b.Cur.Pools {
 		fmt.Fprintf(os.Stderr, "TRACE h=%d pool %d coins %d/%d reserves %s / %s\n", b.Height, p.ID, p.Coin0, p.Coin1, p.Reserve0, p.Reserve1)
 		for _, o := range p.Orders {
